@@ -1084,6 +1084,8 @@ from mlmverif.selfcheck import B, OK  # noqa: E402
 _T = 'chainables/transform.py'
 _F = 'chainables/tree_fns.py'
 VARIANTS = [
+    OK('filter-marker-compared-the-other-way-round', 'chainables/tree.py',
+       "        if replace_false_with != DEFAULT_FILTER:\n          result.append(replace_false_with)", "        if not (replace_false_with == DEFAULT_FILTER):\n          result.append(replace_false_with)"),
     B('filter-marker-compared-by-identity', 'chainables/tree.py',
       "        if replace_false_with != DEFAULT_FILTER:\n          result.append(replace_false_with)", "        if replace_false_with is not DEFAULT_FILTER:\n          result.append(replace_false_with)", 'R-C02-22'),
     B('revert-noop-ignores-slicers', 'chainables/transform.py',
